@@ -608,3 +608,121 @@ func init() {
 			return obs
 		}})
 }
+
+// CALL.package-restored — C08: "a function body always runs with its defining
+// package current".  The callee's package is installed by call(); what keeps
+// the CALLER's body in the caller's package after the callee returns is the
+// restore call() registers.  If that restore is registered only when the
+// callee lives in a different package, a same-package callee that runs
+// in-package hands its caller — and everything up to top level — a different
+// current package.
+func init() {
+	register(&Rule{ID: "CALL.package-restored", Floor: 2,
+		Doc: "in LEnv.call every evaluation of a body form of a user-defined function (every eval call outside the builtin branch) is dominated by a `defer` that stores back to Runtime.Package a value read from Runtime.Package before: the package current at the call is restored on every return and panic, whichever package the callee is defined in",
+		Run: func(c *Ctx) []Obligation {
+			const rid = "CALL.package-restored"
+			fn, fd, pkg := c.LookupFunc("lisp.(*LEnv).call")
+			evalM := c.LookupMethod("lisp.LEnv.eval")
+			builtinM := c.LookupMethod("lisp.LVal.Builtin")
+			pkgFld := c.LookupField("lisp.Runtime.Package")
+			if fn == nil || evalM == nil || builtinM == nil || pkgFld == nil {
+				return []Obligation{anchorMissing(rid, "LEnv.call / LEnv.eval / LVal.Builtin / Runtime.Package")}
+			}
+			u := FuncUnit{fn, fd, pkg}
+			info := pkg.TypesInfo
+			fc := c.cfgOf(u, nil)
+			// the builtin branch
+			var builtinVar types.Object
+			ast.Inspect(fd.Body, func(n ast.Node) bool {
+				if as, ok := n.(*ast.AssignStmt); ok && len(as.Lhs) == 1 && len(as.Rhs) == 1 {
+					if ce, ok := ast.Unparen(as.Rhs[0]).(*ast.CallExpr); ok && originOf(Callee(info, ce)) == builtinM {
+						builtinVar = identObj(info, as.Lhs[0])
+					}
+				}
+				return true
+			})
+			var builtinBranch *ast.BlockStmt
+			ast.Inspect(fd.Body, func(n ast.Node) bool {
+				if is, ok := n.(*ast.IfStmt); ok && builtinVar != nil {
+					if isT, nonNil := isNilTest(info, is.Cond, builtinVar); isT && nonNil {
+						builtinBranch = is.Body
+					}
+				}
+				return true
+			})
+			// restoring defers
+			var defers []Loc
+			for _, b := range fc.G.Blocks {
+				if !fc.Live(b) {
+					continue
+				}
+				for i, n := range b.Nodes {
+					ds, ok := n.(*ast.DeferStmt)
+					if !ok {
+						continue
+					}
+					lit, ok := ds.Call.Fun.(*ast.FuncLit)
+					if !ok {
+						continue
+					}
+					restores := false
+					ast.Inspect(lit.Body, func(m ast.Node) bool {
+						as, ok := m.(*ast.AssignStmt)
+						if !ok || len(as.Lhs) != 1 || len(as.Rhs) != 1 {
+							return true
+						}
+						if FieldOfSelector(info, as.Lhs[0]) != pkgFld {
+							return true
+						}
+						// the stored value: a local defined from a read of Runtime.Package before the defer
+						if o := identObj(info, as.Rhs[0]); o != nil {
+							ast.Inspect(fd.Body, func(k ast.Node) bool {
+								if ds2, ok := k.(*ast.AssignStmt); ok && ds2.Pos() < ds.Pos() {
+									for j, l := range ds2.Lhs {
+										if identObj(info, l) == o && j < len(ds2.Rhs) && FieldOfSelector(info, ds2.Rhs[j]) == pkgFld {
+											restores = true
+										}
+									}
+								}
+								return true
+							})
+						}
+						return true
+					})
+					if restores {
+						defers = append(defers, Loc{b, i})
+					}
+				}
+			}
+			var obs []Obligation
+			ord := &ordinal{}
+			for _, b := range fc.G.Blocks {
+				if !fc.Live(b) {
+					continue
+				}
+				for i, n := range b.Nodes {
+					for _, ce := range callsIn(n, false) {
+						if originOf(Callee(info, ce)) != evalM {
+							continue
+						}
+						if builtinBranch != nil && ce.Pos() >= builtinBranch.Pos() && ce.End() <= builtinBranch.End() {
+							continue
+						}
+						construct := ord.next("evaluation of a body form")
+						dom := false
+						for _, d := range defers {
+							if fc.Dominates(d, Loc{b, i}) {
+								dom = true
+							}
+						}
+						if dom {
+							obs = append(obs, mkOb(c, rid, u, construct, ce, Proved, "after the unconditional deferred restore of Runtime.Package", true))
+						} else {
+							obs = append(obs, mkOb(c, rid, u, construct, ce, Violated, "a body form is evaluated on a path where no restore of Runtime.Package has been registered (the restore is conditional on the callee's package differing from the current one): a callee defined in the current package that runs in-package leaves its caller's remaining body — defined in another package — running in the package it switched to, and the switch survives to top level", true))
+						}
+					}
+				}
+			}
+			return obs
+		}})
+}
